@@ -82,8 +82,10 @@ def t_expect_additive(op, n0, x0, n1, x1):
         return "diff", t_abs(n0, x0) - t_abs(n1, x1)
     return None
 
-def t_check_additive(op, n0, xs0, n1, xs1, label, vs):
-    """None if the returned labelled readings are what affine arithmetic gives, else a message"""
+def t_check_additive(op, n0, xs0, n1, xs1, label, vs, extra_kelvin=0.0):
+    """None if the returned labelled readings are what affine arithmetic gives, else a message.
+    extra_kelvin: magnitude (in kelvin) of zero points that were added and subtracted on the way
+    (offset conversions cancel them in floating point), part of the rounding scale"""
     for x0, x1, v in zip(xs0, xs1, vs):
         e = t_expect_additive(op, n0, x0, n1, x1)
         if e is None:
@@ -93,6 +95,7 @@ def t_check_additive(op, n0, xs0, n1, xs1, label, vs):
             return "a %s result is labelled with the %s unit %s" % (kind, t_kind(label), label)
         want = t_reading(kind, label, kel)
         scale = abs(float(x0) * float(t_size(n0) / t_size(label))) + abs(float(x1) * float(t_size(n1) / t_size(label)))
+        scale += float(extra_kelvin) / float(t_size(label))
         if not t_near(v, want, scale):
             return "%r [%s] %s %r [%s] returned %r [%s]; affine arithmetic gives %r [%s]" % (
                 x0, n0, op, x1, n1, float(v), label, float(want), label)
@@ -663,14 +666,15 @@ def run(tier, seed):
                         for i in claim:
                             u = sus[i]
                             args = (op, u0.name, [xs0[i]], u.name, [ys[i]]) if side == "right" else (op, u.name, [ys[i]], u0.name, [xs0[i]])
+                            xk = abs(float(t_abs(u.name, 0))) + abs(float(t_abs(uf.name, 0)))  # the element went through u -> uf
                             try:
-                                msg = t_check_additive(*args, label, [vs[i]]) if len(vs) == 3 else f"{len(vs)} results for 3 elements"
+                                msg = t_check_additive(*args, label, [vs[i]], xk) if len(vs) == 3 else f"{len(vs)} results for 3 elements"
                             except ValueError as e:
                                 msg = f"result labelled {label}: {e}"
                             if msg:
                                 chk.fail(f"wrong-value|seq-{op}|{side}|{u0.shape}|{uf.shape}|{u.shape}", f"{code} with a = {a_src}, b = {b_src}: element {i}: {msg}",
                                          {"python": snippet(src + RAISES_SRC + body + "if not bad:\n    vs = [float(v) for v in np.asarray(r).ravel()]\n"
-                                                            f"    m = t_check_additive(*{args!r}, repr(r.units), [vs[{i}]])\n    assert m is None, m\n"), "form": fname})
+                                                            f"    m = t_check_additive(*{args!r}, repr(r.units), [vs[{i}]], {xk!r})\n    assert m is None, m\n"), "form": fname})
                                 break
                     else:
                         outcomes[side][fname] = res
